@@ -99,7 +99,7 @@ fn gen_message_with_writer(rng: &mut Rng, buf: &mut [u8], mode: TsigMode, rr: Pr
 }
 
 pub fn run_c11(ctx: &Ctx, rep: &mut Report) {
-    let n = ctx.cases(1_200, 40_000);
+    let n = ctx.cases(4_800, 60_000);
     let mut buf = vec![0u8; 65535];
     for case in ctx.case_range(n) {
         rep.current_case = case;
@@ -420,7 +420,7 @@ fn c10_scenario(rng: &mut Rng) -> Scenario {
 }
 
 pub fn run_c10(ctx: &Ctx, rep: &mut Report) {
-    let n = ctx.cases(4_000, 120_000);
+    let n = ctx.cases(16_000, 200_000);
     for case in ctx.case_range(n) {
         rep.current_case = case;
         let mut rng = ctx.rng("c10", case);
